@@ -20,6 +20,9 @@ ASSUMPTIONS = [
 ]
 
 
+_NTOK = object()
+
+
 def shards(tier, seed):
     n = 8 if tier == 'quick' else 16
     return [dict(i=i, n=n) for i in range(n)]
@@ -144,10 +147,12 @@ def check_case(sink, c, o, seed, idx):  # noqa: C901
         ev = []
 
         def f_leaf(x):
+            U.tick('f_leaf', x)  # (in re-entrant cases the visitor calls back into optree - also into traverse / walk themselves)
             ev.append(('leaf', x))
             return x
 
         def f_node_t(node):
+            U.tick('f_node', node)
             ev.append(('node', type(node), None))
             return node
 
@@ -163,16 +168,33 @@ def check_case(sink, c, o, seed, idx):  # noqa: C901
         ev2 = []
 
         def f_leaf2(x):
+            U.tick('f_leaf', x)
             ev2.append(('leaf', None))
             return x
 
         def f_node_w(node_type, node_data, children):
+            U.tick('f_node', node_type)
             ev2.append(('node', node_type, len(children)))
-            return (node_type, len(children))
+            return (_NTOK, node_type, tuple(children))
 
-        spec.walk(leaves, f_node_w, f_leaf2)
+        walked = spec.walk(leaves, f_node_w, f_leaf2)
         want_w = [('leaf', None) if e[0] == 'leaf' else ('node', e[1], e[2]) for e in expected_events]
         sink.check(ev2 == want_w, 'walk/post-order', 'walk applies f_node(type, data, children) once per internal node after its children', ident, lambda: (ev2, want_w))
+        # the children handed to every node function are the results of ITS children, in order: linearise the nested result
+        lin = []
+
+        def linearise(r):
+            if type(r) is tuple and len(r) == 3 and r[0] is _NTOK:
+                for ch in r[2]:
+                    linearise(ch)
+                lin.append(('node', r[1], len(r[2])))
+            else:
+                lin.append(('leaf', id(r)))
+
+        linearise(walked)
+        li = iter(ref.leaves)
+        want_lin = [('leaf', id(next(li))) if e[0] == 'leaf' else ('node', e[1], e[2]) for e in expected_events]
+        sink.check(lin == want_lin, 'walk/children-are-the-childrens-results', 'walk hands every node function the results of its own children, in order', ident, lambda: (lin[:12], want_lin[:12]))
         # ---- identity map builds new containers, same leaves
         ident_map = optree.tree_map(lambda x: x, c.tree, **kw)
         d = same.diff(c.tree, ident_map, leaf_ids=leaf_ids)
